@@ -130,18 +130,7 @@ func c12SchedScenario(c c12SchedCase) *vsched.Scenario {
 					}
 				}
 			}
-			for _, ln := range logb.Lines() {
-				if strings.HasPrefix(ln, name+": inconsistency ") {
-					rest := ln[strings.Index(ln, ": \"")+3:]
-					field := rest[:strings.Index(rest, "\"")]
-					details := ""
-					if j := strings.Index(rest, "\": ("); j >= 0 {
-						d := rest[j+4:]
-						details = d[:strings.Index(d, ") ")]
-					}
-					logged = append(logged, field+"|"+details)
-				}
-			}
+			logged = c12LoggedProblems(logb.Lines(), name+":", want)
 			counted, logged = c12Filter(counted, hopDC), c12Filter(logged, hopDC)
 			sort.Strings(counted)
 			sort.Strings(logged)
